@@ -189,7 +189,7 @@ func c14(r *rt.Run) {
 }
 
 const c14Rule = "facts: every set of <= 2 intervals (28 finite + 4 half-bounded on a 0..6 s timeline; quick: half of the pairs) for a(1) plus a(2)@[3,3], coalesced; programs: 4 operators x bounds {now,0s..3s}x{0s..3s} (ordered and swapped) at every evaluation time 0..6 s, " +
-	"an operator combined with a variable annotation on the same literal (4 operators x 8 windows, into head arguments and into a head annotation), variable annotations, head annotations (copy, now, open, fixed), two-rule chains in both clause orders; interval relations: every ordered pair of the 15 intervals over 0..4 x 9 relations; non-trivial = cases whose expected result is non-empty"
+	"an operator combined with a variable annotation on the same literal (4 operators x 8 windows, into head arguments and into a head annotation), variable annotations, head annotations (copy, now, open on either side, eternal, eternal then an operator over the derived predicate, fixed), two-rule chains in both clause orders; interval relations: every ordered pair of the 15 intervals over 0..4 x 9 relations; non-trivial = cases whose expected result is non-empty"
 
 func c14Pass(r *rt.Run) {
 	factSets := c14FactSets(r.Thorough())
@@ -232,6 +232,10 @@ func c14Pass(r *rt.Run) {
 		c14Prog{src: c14Decls + "h(X)@[S,E] :- a(X)@[S,E].\n", kind: "head-copy"},
 		c14Prog{src: c14Decls + "h(X)@[now] :- a(X)@[S,E].\n", kind: "head-now"},
 		c14Prog{src: c14Decls + "h(X)@[S,_] :- a(X)@[S,E].\n", kind: "head-open"},
+		c14Prog{src: c14Decls + "h(X)@[_,E] :- a(X)@[S,E].\n", kind: "head-open-left"},
+		c14Prog{src: c14Decls + "Decl h(X) temporal bound [/number].\nh(X)@[_,_] :- a(X)@[S,E].\n", kind: "head-eternal"},
+		c14Prog{src: c14Decls + "Decl h(X) temporal bound [/number].\nh(X)@[_,_] :- a(X)@[S,E].\ng(X) :- <-[0s, " + c14Dur(1) + "] h(X).\n", kind: "head-eternal-then-operator"},
+		c14Prog{src: c14Decls + "Decl h(X) temporal bound [/number].\nh(X)@[_,_] :- a(X)@[S,E].\ng(X) :- [+[" + c14Dur(1) + ", " + c14Dur(2) + "] h(X).\n", kind: "head-eternal-then-operator"},
 		c14Prog{src: c14Decls + fmt.Sprintf("h(X)@[%s, %s] :- a(X)@[S,E].\n", c14Stamp(1), c14Stamp(3)), kind: "head-fixed"},
 		c14Prog{src: c14Decls + "h(X)@[S,E] :- a(X)@[S,E].\ng(X)@[S,E] :- h(X)@[S,E].\n", kind: "chain"},
 		c14Prog{src: c14Decls + "g(X)@[S,E] :- h(X)@[S,E].\nh(X)@[S,E] :- a(X)@[S,E].\n", kind: "chain"},
@@ -427,6 +431,10 @@ func c14Case(r *rt.Run, f c14Facts, p *c14Prog, T int64) {
 					want[fmt.Sprintf("%d%s", x, iv{T, T})] = true
 				case "head-open":
 					want[fmt.Sprintf("%d%s", x, iv{i.s, posInf})] = true
+				case "head-open-left":
+					want[fmt.Sprintf("%d%s", x, iv{negInf, i.e})] = true
+				case "head-eternal", "head-eternal-then-operator":
+					want[fmt.Sprintf("%d%s", x, iv{negInf, posInf})] = true
 				case "head-fixed":
 					want[fmt.Sprintf("%d%s", x, iv{1, 3})] = true
 				}
@@ -435,6 +443,23 @@ func c14Case(r *rt.Run, f c14Facts, p *c14Prog, T int64) {
 		got := read("h")
 		if d := setDiff(want, got); d != "" {
 			r.Violate("head-annotation-"+p.kind, fmt.Sprintf("facts %s, T=%d, %s: stored intervals of h: %s", f.text, T, strings.TrimSpace(strings.TrimPrefix(p.src, c14Decls)), d), w)
+		}
+		if p.kind == "head-eternal-then-operator" {
+			// a fact that holds at every instant holds in every window
+			wantG, gotG := map[string]bool{}, map[string]bool{}
+			for x, ivs := range stored {
+				if len(ivs) > 0 {
+					wantG[fmt.Sprint(x)] = true
+				}
+			}
+			store.GetFacts(ast.NewQuery(ast.PredicateSym{Symbol: "g", Arity: 1}), func(a ast.Atom) error {
+				n, _ := a.Args[0].(ast.Constant).NumberValue()
+				gotG[fmt.Sprint(n)] = true
+				return nil
+			})
+			if d := setDiff(wantG, gotG); d != "" {
+				r.Violate("head-annotation-eternal-then-operator", fmt.Sprintf("facts %s, T=%d, %s: g: %s", f.text, T, strings.ReplaceAll(strings.TrimPrefix(p.src, c14Decls), "\n", " "), d), w)
+			}
 		}
 		if p.kind == "chain" {
 			if d := setDiff(want, read("g")); d != "" {
